@@ -28,7 +28,9 @@ ASSUMPTIONS = ['Interpolates: the interpolant passes through its knots (validate
 RULE = ('extrema_exhaustive: every sequence of length 0..L over the alphabet %s (L=7 quick, 9 thorough) x pad_width 0..5 x '
         '{peaks, troughs, abs_peaks}, exact integer equality with the model, None <-> none. extrema_random: long signals from 6 families '
         '(integer levels with ties/plateaus, sinusoid sums, quantised, scaled, trend) x pad_width in {0..5, 8, 50} x 3 modes x parabolic on/off. '
-        'envelope: short alphabet sequences and long signals x parabolic on/off x {splrep, pchip, mono_pchip} x {upper, lower, combined} x pad 0..5. '
+        'envelope: deterministic sweep over every alphabet sequence of length 5..L with >= 2 extrema (options cycled through parabolic on/off x '
+        '{splrep, pchip, mono_pchip} x {upper, lower, combined} x pad 1..5), plus random short alphabet sequences and long signals x the same options x pad 0..5, 8, 50, '
+        '2-D column input and the emd.utils re-export. Each implementation call has a 2 s budget (a re-padding loop that never covers the edges is reported as raises:Timeout). '
         'A case is non-trivial when the (mode-transformed) signal has at least two strict extrema, so that padding/interpolation happens; '
         'distinct by content hash.' % (_ext.LEVELS,))
 
@@ -65,9 +67,18 @@ class ExtremaExhaustive(Stream):
 
     def impl(self, case):
         res, fails = [], {}
+        hung = False
         for seq, mode, w in self._combos(case):
+            if hung:     # one call of this block already exceeded its budget: do not wait for the others
+                res.append({'error': 'NotRun'})
+                continue
             try:
                 r = _ext.call_gpe(seq, w, mode)
+            except _ext.Timeout as e:
+                hung = True
+                res.append({'error': 'Timeout'})
+                fails.setdefault('raises:Timeout', 'x=%s pad=%d mode=%s: %r' % (seq, w, mode, e))
+                continue
             except Exception as e:  # noqa
                 res.append({'error': type(e).__name__})
                 fails.setdefault('raises:' + type(e).__name__, 'x=%s pad=%d mode=%s: %r' % (seq, w, mode, e))
@@ -297,6 +308,17 @@ class Envelope(Stream):
         return out
 
     def generate(self, rng, tier):
+        # deterministic sweep: every alphabet sequence (length 5..L) with >= 2 extrema of the requested kind,
+        # options cycled so that each (parabolic, method, mode, pad 1..5) combination recurs
+        import itertools
+        combos = list(itertools.product([0, 1], _ext.METHODS, list(_ext.EMODES), [1, 2, 3, 4, 5]))
+        k = 0
+        for length in range(5, (9 if tier == 'thorough' else 7) + 1):
+            for seq in _ext.enum_block(length, []):
+                par, method, emode, pad = combos[k % len(combos)]
+                if len(_ext.strict_extrema(seq, _ext.EMODES[emode])) >= 2:
+                    k += 1
+                    yield {'x': seq, 'emode': emode, 'method': method, 'pad': pad, 'parab': par, 'family': 'alphabet-sweep'}
         n_cases = 3000 if tier == 'thorough' else 330
         for i in range(n_cases):
             u = rng.random()
